@@ -6,7 +6,7 @@
      ref   {ch, order, files, hasmpd, mpd}         outcome for channel ch of the SAME uploads made one after the
                                                    other (order fwd / rev) on a fresh receiver (real code)
      chan_created {ch}                             hook in newChannel: one per channel OBJECT
-     up    {ch, tr, seg, k, status, stored}        answer to an upload (seg = init | media, k = -1 | 0..2) and the
+     up    {ch, tr, seg, k, status, body, stored}  answer to an upload (seg = init | media, k = -1 | 0..2) and the
                                                    driver's own look at <storage>/<ch>/<tr>/ (bytes equal)
      process {ch, tr, k, complete, known}          hook in the channel goroutine after it handled a segment
      final {ch, files, hasmpd, mpd, objects}       storage and manifest.mpd of channel ch after quiescence
